@@ -35,7 +35,9 @@ type Prog struct {
 	Flat     *ssa.FlattenStats        /* What helper inlining did. */
 	Helpers  []string                 /* Helper functions folded into their callers. */
 	Canon    int                      /* Operations rewritten to their canonical spelling. */
+	merged   map[string]*ssa.Function /* reference name → the function its body was written into */
 	renamed  map[string]*ssa.Function /* reference name → the function which took its place */
+	Promoted int                      /* Functions whose struct parameters were replaced by their fields. */
 	Unrolled int                      /* Functions in which a loop over a literal table was unrolled. */
 	Devirt   int                      /* Interface calls resolved to the one implementing type. */
 }
@@ -189,6 +191,7 @@ func Load(o LoadOpts) (*Prog, error) {
 	if !o.NoFlatten {
 		p.flatten()
 	}
+	p.resolveMerged()
 	sort.Slice(p.funcs, func(i, j int) bool {
 		a, b := p.funcs[i], p.funcs[j]
 		if a.String() != b.String() {
@@ -403,6 +406,9 @@ func (p *Prog) flatten() {
 			ssa.ForwardStructFields(f)
 		}
 	}
+	/* A private function which takes a struct only to take it apart gets
+	the fields as parameters (whichever way its author bundled them). */
+	p.promoteParams(tops)
 	/* Which helpers are still referenced from non-helper code? */
 	still := map[*ssa.Function]bool{}
 	var visit func(f *ssa.Function)
@@ -454,4 +460,96 @@ func (p *Prog) flatten() {
 	}
 	sort.Strings(p.Helpers)
 	p.funcs = out
+}
+
+// promoteParams applies argument promotion (ssa.PromoteStructParams) to the
+// private top-level functions of the module whose every use is a static call.
+func (p *Prog) promoteParams(tops []*ssa.Function) {
+	sites := map[*ssa.Function][]ssa.CallInstruction{}
+	otherRefs := map[*ssa.Function]bool{}
+	boundObjs := map[types.Object]bool{}
+	var visit func(f *ssa.Function)
+	visit = func(f *ssa.Function) {
+		for _, b := range f.Blocks {
+			for _, i := range b.Instrs {
+				var callee *ssa.Function
+				if ci, ok := i.(ssa.CallInstruction); ok && !ci.Common().IsInvoke() {
+					if g, isF := ci.Common().Value.(*ssa.Function); isF {
+						callee = g
+						sites[g] = append(sites[g], ci)
+					}
+				}
+				var ops []*ssa.Value
+				first := true
+				for _, o := range i.Operands(ops) {
+					if nil == *o {
+						continue
+					}
+					if g, isF := (*o).(*ssa.Function); isF {
+						if g == callee && first {
+							first = false
+							continue /* the call's own callee operand */
+						}
+						otherRefs[g] = true
+						if "" != g.Synthetic && nil != g.Object() {
+							boundObjs[g.Object()] = true
+						}
+					}
+				}
+			}
+		}
+		for _, a := range f.AnonFuncs {
+			visit(a)
+		}
+	}
+	for _, f := range tops {
+		visit(f)
+	}
+	/* Method names which some interface of the program's module asks for. */
+	ifaceMethod := map[string]bool{}
+	for _, pk := range p.Pkgs {
+		sc := pk.Types.Scope()
+		for _, n := range sc.Names() {
+			if tn, ok := sc.Lookup(n).(*types.TypeName); ok {
+				if it, ok := tn.Type().Underlying().(*types.Interface); ok {
+					for k := 0; k < it.NumMethods(); k++ {
+						ifaceMethod[it.Method(k).Name()] = true
+					}
+				}
+			}
+		}
+	}
+	for _, f := range tops {
+		if isHelper(f) || nil != f.Parent() || nil == f.Blocks || ast.IsExported(f.Name()) || otherRefs[f] || 0 == len(sites[f]) {
+			continue
+		}
+		if nil != f.Object() && boundObjs[f.Object()] {
+			continue
+		}
+		if nil != f.Signature.Recv() && ifaceMethod[f.Name()] {
+			continue
+		}
+		switch f.Name() {
+		case "main", "init":
+			continue
+		}
+		if ssa.PromoteStructParams(f, sites[f]) {
+			p.Promoted++
+			seen := map[*ssa.Function]bool{}
+			for _, ci := range sites[f] {
+				top := ci.Parent()
+				for nil != top.Parent() {
+					top = top.Parent()
+				}
+				if !seen[top] {
+					seen[top] = true
+					ssa.SplitLocalStructs(top)
+					ssa.ForwardStructFields(top)
+				}
+			}
+			if "" != os.Getenv("CRS_FLATDEBUG") {
+				fmt.Fprintf(os.Stderr, "PROMOTED struct parameters of %s\n", f)
+			}
+		}
+	}
 }
